@@ -208,8 +208,12 @@ class TokenPrinter(object):
     def integer(self, v):
         """Add an integer to the output code."""
 
-        s = repr(v)
         h = hex(v)
+        try:
+            s = repr(v)
+        except ValueError:
+            # The decimal representation exceeds the interpreter's integer string conversion limit
+            s = h
 
         if self.previous_token == TokenTypes.SoftKeyword:
             self.delimiter(' ')
